@@ -85,6 +85,16 @@ CHECKS = {
    text="The real Connect/Dial/handshake (two goroutines under the cooperative scheduler) are executed with the client revision AND the server revision as two symbolic integers (every pair), symbolic hello strings, credentials and quota key. Success: negotiated revision == min(client, server), ServerInfo() as sent, client bytes == reference hello + addendum iff min >= 54458 carrying the quota key, then Ping and a Query whose bytes equal the reference encoder at exactly the negotiated revision. Failure (exception, wrong packet, hello cut at every byte, silence): error carrying the exception, no client, the dialed connection closed. Delay: a hello arriving 1s/10s/100s into a 200s handshake timeout is accepted.",
    ref="DESIGN.md §4 C13",
    note="bounds: strings 0..1 byte, one query; TLS and real dialing outside; clock is concrete (arrival instants enumerated); known finding: servers older than 54401 with a newer client (hello fields gated on the client's revision) - reported as KNOWN-FINDING by the separate harness VerifC13OldServer"),
+ "C04": dict(
+   level="model_checking",
+   text="Client.Do (select and insert-with-schema scenarios, the server answering only what it has received a reason to answer) is executed with a fault at every point: server stream cut after byte k (all k), client write failing after byte k (all k), a failing user callback, an exception as the first thing the server sends, unknown and unexpected packet codes - under five non-preemptive scheduling policies (sender first, receiver first, round robin, and the two run-to-block variants). When Do returns an error the real IsClosed/Ping/Do are used to assert: closed => further calls return ErrClosed with zero connection calls; open => the next Ping writes exactly its own byte (nothing encoded for the failed query is sent later) and succeeds. Exhausting the loop budget is reported as does-not-return.",
+   ref="DESIGN.md §4 C04",
+   note="bounds: two scenarios, one block each, revision 54460, compression off; orderings that need a preemption between two non-blocking statements are outside (cooperative coroutines); native replays of schedule-dependent counterexamples are repeated with random delays at the harness' yield points"),
+ "C10": dict(
+   level="model_checking",
+   text="The caller's context is a harness type whose cancellation flips at the k-th observation (every Err/Done/Deadline call is a gate; k enumerated 0..10/24), for the select and insert scenarios, a responsive or a forever-silent server, and five scheduling policies; plus the same during Connect's hello exchange. When Do fails after the flip: errors.Is(err, context.Canceled), connection closed, client closed, the written bytes are a prefix of the reference stream ending at a flush boundary followed by at most one byte, which must be the Cancel code 3, and no goroutine of the call is left (engine-level leak check); a loop that never observes the cancellation is reported as does-not-return.",
+   ref="DESIGN.md §4 C10",
+   note="bounds: gates <=10 (quick)/24; wall-clock promptness and goroutines blocked in a real kernel read are outside; deadlines are not modelled as expiring on their own (a deadline is a gate like any other); non-preemptive schedules only"),
 }
 
 NA = {
